@@ -1,3 +1,9 @@
 import MpfVerif.DriverLoop
-import MpfVerif.Model.Bcp
-def main : IO UInt32 := MpfVerif.runDriver MpfVerif.Bcp.driverStep {}
+import MpfVerif.Model.BcpGen
+import MpfVerif.Model.BcpJson
+/-- `jenc` / `jdec` go to the concrete JSON codec, everything else to the table-driven BCP driver -/
+def c19Step (s : MpfVerif.Bcp.RSt) (line : String) : MpfVerif.Bcp.RSt × String :=
+  match MpfVerif.Bcp.jsonOp line with
+  | some ans => (s, ans)
+  | none => MpfVerif.Bcp.driverStepT s line
+def main : IO UInt32 := MpfVerif.runDriver c19Step {}
